@@ -32,8 +32,9 @@ ANCHORS = ["HashedIterable.__iter__", "ResultQuantifier.evaluate", "SymbolicExpr
            "ConclusionSelector.update_conclusion", "SymbolicExpression._is_duplicate_output_"]
 
 PATTERNS = ["shared_var", "shared_var2", "shared_sub", "shared_subquery", "independent", "same_query", "rule",
-            "domainless", "shared_pred"]
-SHARING = {"shared_var", "shared_var2", "shared_sub", "shared_subquery", "same_query", "rule", "domainless", "shared_pred"}
+            "domainless", "shared_pred", "shared_scalar", "shared_fn"]
+SHARING = {"shared_var", "shared_var2", "shared_sub", "shared_subquery", "same_query", "rule", "domainless", "shared_pred",
+           "shared_scalar", "shared_fn"}
 
 
 def plan(tier):
@@ -154,6 +155,16 @@ def build_queries(spec, m, armed):
     if p == "domainless":
         x = let(m.S0, None, name="x")
         return [an(entity(x, x.a >= spec["t"])), an(entity(x))]
+    if p == "shared_scalar":
+        # a variable over plain values (0 is falsy) used as a comparator operand in one query and re-bound in the other
+        vals = sorted({i % 5 for i in spec["dom"]} | {0})
+        n = let(int, mk(vals), name="n")
+        return [an(entity(n, n < spec["t"] + 2)), an(entity(n, n >= 0, n < spec["u"] + 2))]
+    if p == "shared_fn":
+        # one symbolic-function node used as a condition in one query and as a comparator operand in the other
+        x = let(m.P, mk(items), name="x")
+        f = m.diff_ab(x=x)
+        return [an(entity(x, f)), an(entity(x, f == 0))]
     x = let(m.P, mk(items), name="x")
     V = {"x": x}
     if p == "shared_var":
